@@ -1305,8 +1305,78 @@ func (g *c19Gen) queries(c *c19Case, n int) {
 		}
 		return t
 	}
+	// rangeStack builds 3-6 range terms (and sometimes one equality) on ONE key,
+	// with bounds drawn from the values records really have for that key and
+	// their close neighbours, in random order: "several terms on one key mean
+	// their conjunction" whatever the order in which bounds tighten.
+	// (Added after a seeded change in which a later `k>v` could not tighten an
+	// already merged two-sided range.)
+	rangeStack := func() []c19Term {
+		key := kit.Pick(r, g.keys)
+		if r.Chance(0.25) {
+			key = kit.Pick(r, nameKeys)
+		}
+		seen := map[string]bool{}
+		var vals []string
+		for _, rec := range all {
+			v, ok := rec.Labels[key]
+			if !ok {
+				v, ok = rec.Name[key]
+			}
+			if ok && !seen[v] {
+				seen[v] = true
+				vals = append(vals, v)
+			}
+		}
+		vals = append(vals, kit.Pick(r, g.vals))
+		sort.Strings(vals)
+		var ts []c19Term
+		n := r.Range(3, 6)
+		for j := 0; j < n; j++ {
+			v := kit.Pick(r, vals)
+			switch r.Intn(6) {
+			case 0:
+				v += "0"
+			case 1:
+				if len(v) > 0 {
+					v = v[:len(v)-1]
+				}
+			}
+			op := kit.Pick(r, []string{"<", ">"})
+			// bias: lower bounds from the lower half, upper bounds from the upper half,
+			// so that most stacks are satisfiable and bounds really tighten
+			if r.Chance(0.7) {
+				k := r.Intn(len(vals))
+				if op == ">" {
+					k = r.Intn(len(vals)/2 + 1)
+				} else {
+					k = len(vals)/2 + r.Intn(len(vals)-len(vals)/2)
+				}
+				v = vals[k]
+			}
+			if v == "" && r.Chance(0.9) {
+				v = kit.Pick(r, g.vals)
+			}
+			ts = append(ts, c19Term{Key: kit.B(key), Op: op, Val: kit.B(v), Ref: -1})
+		}
+		if r.Chance(0.15) {
+			if v := kit.Pick(r, vals); v != "" {
+				ts = append(ts, c19Term{Key: kit.B(key), Op: ":", Val: kit.B(v), Ref: -1})
+			}
+		}
+		kit.Shuffle(r, ts)
+		return ts
+	}
 	for i := 0; i < n; i++ {
 		q := c19Query{Render: r.Uint64()}
+		if len(all) > 0 && r.Chance(0.15) {
+			q.Terms = rangeStack()
+			if r.Chance(0.5) {
+				q.Limit = r.Range(1, len(c.Uploads)+1)
+			}
+			c.Queries = append(c.Queries, q)
+			continue
+		}
 		nt := r.Intn(7)
 		if r.Chance(0.5) {
 			nt = r.Range(1, 3)
